@@ -85,7 +85,7 @@ def r2(ctx, prog):
 
 
 def r3(ctx, prog):
-    ctx.rule('C03.R3', 'A8: the dispatch loops never throw: no unguarded .at() on fd_data_map_ (callbacks of the same pass can erase the key)', floor=2)
+    ctx.rule('C03.R3', 'A8: the dispatch loops never throw: no unguarded .at() on fd_data_map_ (callbacks of the same pass can erase the key)', floor=1)
     table = {
         (E + 'EpollLoop::runLoop', 'std::vector::at', 'events'): 'i < fds and epoll_wait never returns more than the events.size() it was given',
     }
